@@ -143,7 +143,13 @@ def rule_extend(ctx):
               loc=ctx.loc(bar, bar.node))
     n += 1
     tr = ctx.func('merkle', 'MerkleCache.truncate')
-    n += rule_epoch_bumped(ctx, tr, 'self.truncations', 'C11.EXTEND')
+    # the bump comes BEFORE the cut: readers take no lock, so a reader that already sees the shortened level must also
+    # see the moved counter
+    tcfg = ctx.cfg(tr)
+    cuts = [tcfg.node(s_) for s_ in tr.own_nodes() if isinstance(s_, (ast.Assign, ast.AugAssign)) and any(
+        not isinstance(t_, ast.Name) and ctx.res.canon(t_.value if isinstance(t_, ast.Subscript) else t_, tr) in ('self.level', 'self.length')
+        for t_ in (s_.targets if isinstance(s_, ast.Assign) else [s_.target]))]
+    n += rule_epoch_bumped(ctx, tr, 'self.truncations', 'C11.EXTEND', must_precede=[tcfg.exit] + cuts)
     # commit and truncation serialised by the same lock (truncate runs on another thread)
     ext = ctx.func('merkle', 'MerkleCache._extend_to')
     for f, what in ((ext, 'commit'), (tr, 'truncation')):
@@ -289,6 +295,10 @@ def run(ctx):
     ctx.rule('C11.EXTEND', lambda: rule_extend(ctx), 5)
     ctx.rule('C11.RANGE', lambda: rule_range(ctx), 4)
     ctx.rule('C11.INITLEN', lambda: rule_init_below_horizon(ctx), 1)
+    ctx.rule('C11.EXACTCOUNT', lambda: rule_exact_hashes(ctx), 1)
+    ctx.rule('C11.HEADERSRC', lambda: rule_header_source(ctx), 1)
+    from . import c04 as _c04l
+    ctx.rule('C11.LOGICALFILE', lambda: _c04l.rule_logical_file(ctx, 'C11'), 2)
     c12.run(ctx)
     ctx.rule('C11.CACHE', lambda: c12.rule_cache_commit(ctx, 'C11.CACHE'), 4)
     ctx.rule('C11.CACHES', lambda: rule_cachefill(ctx) + c10.rule_signal(ctx, 'C11.CACHES'), 9)
@@ -331,3 +341,44 @@ def rule_init_below_horizon(ctx, rule='C11.INITLEN'):
               'full pre-reorg level over the truncated length and header proofs at the boundary fold to a wrong root',
               loc=ctx.loc(f, f.node))
     return 1
+
+
+def rule_exact_hashes(ctx, rule='C11.EXACTCOUNT'):
+    '''MerkleCache commits `length` for whatever its source returned: the source must return exactly the number of hashes
+    asked for or raise.  fs_block_hashes therefore refuses a short read (headers above DB.state.height are clipped away
+    by read_headers during a reorganisation).'''
+    f = ctx.func('db', 'DB.fs_block_hashes')
+    cfg = ctx.cfg(f)
+    cntp = f.params[2]
+    guards = [s for s in f.own_nodes() if isinstance(s, ast.If) and any(isinstance(x, ast.Raise) for x in s.body)]
+    ok, why = False, 'no raising guard on the number of headers read'
+    for g in guards:
+        t = g.test
+        if isinstance(t, ast.Compare) and len(t.ops) == 1 and isinstance(t.ops[0], ast.NotEq) and cntp in (norm(t.left), norm(t.comparators[0])):
+            rets = [cfg.node(r) for r in f.own_nodes() if isinstance(r, ast.Return)]
+            ok = all(cfg.dominates(cfg.node(g), r) for r in rets) and bool(rets)
+            why = 'the guard does not dominate every return'
+    ctx.check(ok, rule, ctx.key(f, None, 'short read refused'),
+              'fs_block_hashes raises unless exactly `count` headers were read',
+              why + ': a short read (headers clipped at the index height during a reorganisation) is returned as if complete, and the '
+              'merkle cache commits the requested length over fewer hashes - the in-flight proof and later ones fold to wrong roots',
+              loc=ctx.loc(f, f.node))
+    return 1
+
+
+def rule_header_source(ctx, rule='C11.HEADERSRC'):
+    '''The cached header-subscription result (hsub_results) is refreshed only when a new height is notified and is not
+    touched by the reorg handler: it may be handed out as the subscription answer only, never as the header of a height a
+    client asks for.'''
+    readers = []
+    for f in ctx.repo.funcs.values():
+        for x in f.own_nodes():
+            if isinstance(x, ast.Attribute) and x.attr == 'hsub_results' and isinstance(x.ctx, ast.Load):
+                readers.append((f, x))
+    allowed = {'ElectrumX.subscribe_headers_result', 'SessionManager._refresh_hsub_results'}
+    bad = [f'{ctx.loc(f, x)} {f.qual}' for f, x in readers if f.qual not in allowed]
+    ctx.check(not bad and bool(readers), rule, 'electrumx/server/session.py :: hsub_results :: read by the subscription answer only',
+              'the cached subscription header is read only to answer headers.subscribe / header notifications',
+              f'the cached subscription header is also read by {bad}: after a reorganisation it still holds the orphaned block\'s header '
+              'until the next height change is notified, so a header (proof) served from it does not belong to the current chain')
+    return max(len(readers), 1)
